@@ -1,7 +1,7 @@
 #!/bin/bash
 # Run once after a fresh restore, offline: builds the Lean library, proofs and driver, and the Go harness.
 set -e
-cd /verif
+cd "$(dirname "$0")"   # /verif, or a snapshot of it
 export GOFLAGS=-mod=mod GOPROXY=off GOSUMDB=off GOTOOLCHAIN=local
 mkdir -p .cache/bin evidence replays
 [ -f tools/gen_facts.py ] && python3 tools/gen_facts.py /repo lean/Netpol/Gen || true
